@@ -4,6 +4,8 @@ use cascette_cache::simd::{CpuFeatures, SimdHashOperations, SimdMemoryOps};
 use cascette_crypto::arc4::Arc4Cipher;
 use cascette_crypto::jenkins::{Jenkins96, hashlittle, hashlittle2};
 use cascette_crypto::salsa20::{Salsa20Cipher, decrypt_salsa20, encrypt_salsa20};
+use cascette_client_storage::index::update::UpdateEntry;
+use cascette_client_storage::storage::LocalHeader;
 use verif_harness::*;
 
 fn salsa(key: &[u8; 16], iv: &[u8], idx: usize, msg: &[u8]) -> String {
@@ -60,6 +62,31 @@ fn run_line(s: &mut Session, toks: &[&str]) -> Option<String> {
         }
         ["arc4", k, m] => arc4(&unhex(k)?, &unhex(m)?),
         ["arc4_split", k, m, sp] => arc4_split(&unhex(k)?, &unhex(m)?, sp.parse().ok()?),
+        ["arc4c", k, m] => {
+            let (k, m) = (unhex(k)?, unhex(m)?);
+            catch(std::panic::AssertUnwindSafe(|| arc4(&k, &m))).unwrap_or_else(|_| "panic".into())
+        }
+        ["rc4", k, m] => arc4(&unhex(k)?, &unhex(m)?),
+        ["cka", h] => {
+            let h: [u8; 30] = unhex(h)?.try_into().ok()?;
+            format!("{:08x}", LocalHeader::compute_checksum_a(&h))
+        }
+        ["lhv", base, h] => {
+            let h: [u8; 30] = unhex(h)?.try_into().ok()?;
+            let base: usize = base.parse().ok()?;
+            match LocalHeader::from_bytes(&h) {
+                Some(x) => x.validate_checksums(base).to_string(),
+                None => "none".into(),
+            }
+        }
+        ["hg", e] => {
+            let e: [u8; 24] = unhex(e)?.try_into().ok()?;
+            format!("{:08x}", UpdateEntry::compute_hash_guard(&e))
+        }
+        ["upv", e] => {
+            let e: [u8; 24] = unhex(e)?.try_into().ok()?;
+            UpdateEntry::from_bytes(&e).validate_hash_guard().to_string()
+        }
         ["hl", seed, m] => format!("{:08x}", hashlittle(&unhex(m)?, seed.parse().ok()?)),
         ["hl2", pc, pb, m] => {
             let (mut pc, mut pb): (u32, u32) = (pc.parse().ok()?, pb.parse().ok()?);
@@ -244,7 +271,7 @@ fn main() {
     let args = Args::parse();
     quiet_panics();
     let mut s = Session::new(&args.out);
-    s.rule = "every message length 0..=L (L=200 quick, 1024 thorough) for Salsa20 (4- and 8-byte IV), ARC4, hashlittle, hashlittle2, Jenkins96 with seeded random keys/IVs/seeds/indices (incl. 0 and 2^32-1), every split point for lengths <= 130 (quick: <= 70), bad IV / key lengths, SIMD helpers for every buffer length 0..=200 x every host CPU feature subset; non-trivial = request reaches the primitive (not a length guard); distinct = canonical request text".into();
+    s.rule = "every message length 0..=L (L=200 quick, 1024 thorough) for Salsa20 (4- and 8-byte IV), ARC4, hashlittle, hashlittle2, Jenkins96 with seeded random keys/IVs/seeds/indices (incl. 0 and 2^32-1), every split point for lengths <= 130 (quick: <= 70), bad IV / key lengths, ARC4 again through the checked-index model (all) and through the specification itself (lengths <= 48), LocalHeader checksum_a / UpdateEntry hash guard on library-written, bit-flipped and random records, SIMD helpers for every buffer length 0..=200 x every host CPU feature subset; non-trivial = request reaches the primitive (not a length guard); distinct = canonical request text".into();
     let mut rng = Rng::new(args.seed);
 
     if let Some(p) = &args.replay {
@@ -264,6 +291,10 @@ fn main() {
         ("arc4 4b6579 506c61696e74657874", "bbf316e8d940af0ad3"),
         ("arc4 57696b69 7065646961", "1021bf0420"),
         ("arc4 536563726574 41747461636b206174206461776e", "45a01f645fc35b383552544b9bf5"),
+        ("rc4 4b6579 506c61696e74657874", "bbf316e8d940af0ad3"),
+        ("rc4 57696b69 7065646961", "1021bf0420"),
+        ("rc4 536563726574 41747461636b206174206461776e", "45a01f645fc35b383552544b9bf5"),
+        ("arc4c 4b6579 506c61696e74657874", "bbf316e8d940af0ad3"),
         ("md5 -", "d41d8cd98f00b204e9800998ecf8427e"),
         ("md5 616263", "900150983cd24fb0d6963f7d28e17f72"),
         ("md5 6d65737361676520646967657374", "f96b697d7cb7938d525a2f31aaf161d0"),
@@ -350,6 +381,18 @@ fn main() {
                 s.oracle_fail("arc4-roundtrip", &format!("decrypt(encrypt(m)) != m for len {len}"), &[rq.clone()]);
             }
         }
+        // checked-index model (panic-free) on every case; the specification itself on short ones
+        let rq = format!("arc4c {} {}", hex(&akey), hex(&msg));
+        let r = emit(&mut s, rq.clone());
+        s.case(Some(&rq));
+        if r != awhole {
+            s.oracle_fail("arc4-panic", &format!("Arc4Cipher panicked or changed its answer: {r}"), &[rq]);
+        }
+        if len <= 48 {
+            let rq = format!("rc4 {} {}", hex(&akey), hex(&msg));
+            emit(&mut s, rq.clone());
+            s.case(Some(&rq));
+        }
         if len <= split_max && len % 3 == 0 {
             for sp in 0..=len {
                 let rq = format!("arc4_split {} {} {}", hex(&akey), hex(&msg), sp);
@@ -402,6 +445,90 @@ fn main() {
         s.case(None);
         if r != "err" {
             s.oracle_fail("arc4-guard", &format!("key of {klen} bytes accepted"), &[rq]);
+        }
+    }
+    // users of the seeded hash: LocalHeader checksum_a, UpdateEntry hash guard
+    let users = if args.thorough() { 2000 } else { 300 };
+    for n in 0..users {
+        // a header as the library writes it, then with each region disturbed
+        let ek: [u8; 16] = rng.bytes(16).try_into().unwrap();
+        let base = if n % 5 == 0 { 0 } else { rng.below(1 << 30) as usize };
+        let size = if n % 7 == 0 { 30 } else { (rng.next() & 0xFFFF_FFFF) as u32 };
+        let good = LocalHeader::new(ek, size, base).to_bytes();
+        let rq = format!("cka {}", hex(&good));
+        let a = emit(&mut s, rq.clone());
+        s.case(Some(&rq));
+        // O: which bytes, which seed — equals the seeded hash of bytes [0,0x16) and is what is stored at [0x16,0x1A)
+        let want = format!("{:08x}", hashlittle(&good[..0x16], 0x3D6B_E971));
+        let stored = format!("{:08x}", u32::from_le_bytes([good[0x16], good[0x17], good[0x18], good[0x19]]));
+        if a != want || a != stored {
+            s.oracle_fail("checksum-a-def", &format!("checksum_a {a}, hashlittle(bytes[0..0x16], 0x3D6BE971) {want}, stored {stored}"), &[rq.clone()]);
+        }
+        let rq = format!("hl 1030482289 {}", hex(&good[..0x16]));
+        emit(&mut s, rq.clone());
+        s.case(Some(&rq));
+        let rq = format!("lhv {} {}", base, hex(&good));
+        let v = emit(&mut s, rq.clone());
+        s.case(Some(&rq));
+        if v != "true" {
+            s.oracle_fail("checksum-a-validate", "a header written by LocalHeader::new does not validate", &[rq]);
+        }
+        let mut bad = good;
+        let p = rng.below(30) as usize;
+        bad[p] ^= 1 << rng.below(8);
+        let rq = format!("cka {}", hex(&bad));
+        let a2 = emit(&mut s, rq.clone());
+        s.case(Some(&rq));
+        if p >= 0x16 && a2 != a {
+            s.oracle_fail("checksum-a-def", &format!("checksum_a depends on byte {p} outside [0,0x16)"), &[rq]);
+        }
+        let rq = format!("lhv {} {}", base, hex(&bad));
+        let v = emit(&mut s, rq.clone());
+        s.case(Some(&rq));
+        if v != "false" {
+            s.oracle_fail("checksum-a-validate", &format!("a header with bit flipped in byte {p} validates"), &[rq]);
+        }
+        let rnd: [u8; 30] = rng.bytes(30).try_into().unwrap();
+        emit(&mut s, format!("cka {}", hex(&rnd)));
+        emit(&mut s, format!("lhv {} {}", rng.below(8), hex(&rnd)));
+        s.case(None);
+        // update entry: random fields, canonical status, guard as the library computes it
+        let mut e: [u8; 24] = rng.bytes(24).try_into().unwrap();
+        e[22] = *rng.pick(&[0u8, 3, 6, 7]);
+        let g = UpdateEntry::compute_hash_guard(&e);
+        let rq = format!("hg {}", hex(&e));
+        let r = emit(&mut s, rq.clone());
+        s.case(Some(&rq));
+        let want = hashlittle(&e[4..23], 0);
+        if r != format!("{:08x}", want | 0x8000_0000) || g & 0x8000_0000 == 0 || g & 0x7FFF_FFFF != want & 0x7FFF_FFFF {
+            s.oracle_fail("hash-guard-def", &format!("hash guard {r}, hashlittle(bytes[4..23], 0) {want:08x}"), &[rq.clone()]);
+        }
+        let rq = format!("hl 0 {}", hex(&e[4..23]));
+        emit(&mut s, rq.clone());
+        s.case(Some(&rq));
+        let mut e2 = e;
+        e2[..4].copy_from_slice(&rng.bytes(4));
+        e2[23] ^= 0xFF;
+        let rq = format!("hg {}", hex(&e2));
+        let r2 = emit(&mut s, rq.clone());
+        s.case(Some(&rq));
+        if r2 != r {
+            s.oracle_fail("hash-guard-def", "hash guard depends on bytes outside [4,23)", &[rq]);
+        }
+        e[..4].copy_from_slice(&g.to_le_bytes());
+        let rq = format!("upv {}", hex(&e));
+        let v = emit(&mut s, rq.clone());
+        s.case(Some(&rq));
+        if v != "true" {
+            s.oracle_fail("hash-guard-validate", "an entry carrying its computed guard does not validate", &[rq]);
+        }
+        let p = 4 + rng.below(18) as usize;
+        e[p] ^= 1 << rng.below(8);
+        let rq = format!("upv {}", hex(&e));
+        let v = emit(&mut s, rq.clone());
+        s.case(Some(&rq));
+        if v != "false" {
+            s.oracle_fail("hash-guard-validate", &format!("an entry with a bit flipped in byte {p} validates"), &[rq]);
         }
     }
     let simd_rounds = if args.thorough() { 12 } else { 3 };
